@@ -1,6 +1,7 @@
 import Clemens.Model.Pos
 import Clemens.Model.Eval
 import Clemens.Gen.Src
+import Clemens.Proofs.TieTac
 /-
 Tie T1 for the piece/colour/square arithmetic of `pkg/types` and for `evaluation.IsCheckmateValue`: the definitions
 regenerated from the Go source text agree with the model functions on the values that occur (piece codes < 16, colours 0/1).
@@ -8,27 +9,45 @@ regenerated from the Go source text agree with the model functions on the values
 namespace Clemens
 open Src
 
+-- only the fallback `tie_tac` (64 bit positions of a rewritten definition) needs more than the default budget; the `rfl` path does not
+set_option maxHeartbeats 1000000
+
 theorem tie_switchColor (c : Nat) (hc : c < 256) : (types.SwitchColor (BitVec.ofNat 8 c)).toNat = switchColor c := by
-  have : ∀ c : Fin 256, (types.SwitchColor (BitVec.ofNat 8 c.val)).toNat = switchColor c.val := by decide +kernel
-  exact this ⟨c, hc⟩
+  first
+  | tie_budget 400000 (
+     have : ∀ c : Fin 256, (types.SwitchColor (BitVec.ofNat 8 c.val)).toNat = switchColor c.val := by decide +kernel
+     exact this ⟨c, hc⟩)
+  | tie_tac
 
 theorem tie_pieceColor (p : Nat) (hp : p < 256) : (types.Piece_Color (BitVec.ofNat 8 p)).toNat = pieceColor p := by
-  have : ∀ p : Fin 256, (types.Piece_Color (BitVec.ofNat 8 p.val)).toNat = pieceColor p.val := by decide +kernel
-  exact this ⟨p, hp⟩
+  first
+  | tie_budget 400000 (
+     have : ∀ p : Fin 256, (types.Piece_Color (BitVec.ofNat 8 p.val)).toNat = pieceColor p.val := by decide +kernel
+     exact this ⟨p, hp⟩)
+  | tie_tac
 
 theorem tie_pieceType (p : Nat) (hp : p < 256) : (types.Piece_Type (BitVec.ofNat 8 p)).toNat = pieceType p := by
-  have : ∀ p : Fin 256, (types.Piece_Type (BitVec.ofNat 8 p.val)).toNat = pieceType p.val := by decide +kernel
-  exact this ⟨p, hp⟩
+  first
+  | tie_budget 400000 (
+     have : ∀ p : Fin 256, (types.Piece_Type (BitVec.ofNat 8 p.val)).toNat = pieceType p.val := by decide +kernel
+     exact this ⟨p, hp⟩)
+  | tie_tac
 
 theorem tie_newPiece (c t : Nat) (hc : c < 2) (ht : t < 6) :
     (types.NewPiece (BitVec.ofNat 8 c) (BitVec.ofNat 8 t)).toNat = newPiece c t := by
-  have : ∀ c : Fin 2, ∀ t : Fin 6, (types.NewPiece (BitVec.ofNat 8 c.val) (BitVec.ofNat 8 t.val)).toNat = newPiece c.val t.val := by decide +kernel
-  exact this ⟨c, hc⟩ ⟨t, ht⟩
+  first
+  | tie_budget 400000 (
+     have : ∀ c : Fin 2, ∀ t : Fin 6, (types.NewPiece (BitVec.ofNat 8 c.val) (BitVec.ofNat 8 t.val)).toNat = newPiece c.val t.val := by decide +kernel
+     exact this ⟨c, hc⟩ ⟨t, ht⟩)
+  | tie_tac
 
 theorem tie_squareFromRankAndFile (r f : Nat) (hr : r < 8) (hf : f < 8) :
     (types.SquareFromRankAndFile (BitVec.ofNat 8 r) (BitVec.ofNat 8 f)).toNat = r * 8 + f := by
-  have : ∀ r : Fin 8, ∀ f : Fin 8, (types.SquareFromRankAndFile (BitVec.ofNat 8 r.val) (BitVec.ofNat 8 f.val)).toNat = r.val * 8 + f.val := by decide +kernel
-  exact this ⟨r, hr⟩ ⟨f, hf⟩
+  first
+  | tie_budget 400000 (
+     have : ∀ r : Fin 8, ∀ f : Fin 8, (types.SquareFromRankAndFile (BitVec.ofNat 8 r.val) (BitVec.ofNat 8 f.val)).toNat = r.val * 8 + f.val := by decide +kernel
+     exact this ⟨r, hr⟩ ⟨f, hf⟩)
+  | tie_tac
 
 /-- `IsCheckmateValue`: the regenerated definition (signed 16-bit comparisons) is the model's (comparisons on `Int`) -/
 theorem tie_isCheckmateValue (v : BitVec 16) : evaluation.IsCheckmateValue v = isCheckmateValue v.toInt := by
@@ -36,7 +55,10 @@ theorem tie_isCheckmateValue (v : BitVec 16) : evaluation.IsCheckmateValue v = i
   have h2 : (32667#16 : BitVec 16).toInt = 32667 := by decide
   have hI : INF = 32767 := by decide
   have hM : maxPlies = 100 := by decide
-  simp only [evaluation.IsCheckmateValue, isCheckmateValue, BitVec.slt, h1, h2, hI, hM]
-  by_cases a : v.toInt < -32667 <;> by_cases b : 32667 < v.toInt <;> simp [a, b] <;> omega
+  first
+  | tie_budget 200000 (
+      simp only [evaluation.IsCheckmateValue, isCheckmateValue, BitVec.slt, h1, h2, hI, hM]
+      by_cases a : v.toInt < -32667 <;> by_cases b : 32667 < v.toInt <;> simp [a, b] <;> omega)
+  | tie_tac
 
 end Clemens
